@@ -85,3 +85,11 @@ BUILT['C10'] = (
     "the list model bit for bit, every index -n-2..n+1, iteration, pop result and copy is a same-class object with the model's "
     "value, IndexError exactly when the list raises; all 1792 slices x lengths 0..5 enumerated on every run",
     NOTE, "DESIGN.md 4 C10")
+BUILT['C11'] = (
+    "sampling monitor on the real interpolators with a longdouble geodesic oracle R0 exp(s Phi): one arc must explain all "
+    "samples of a pair; translation linearity, validity, out-of-range rejection, route agreement, vector-s sequence",
+    "slerp, trinterp, trinterp2, SO2/SE2/SO3/SE3.interp and UnitQuaternion.interp are sampled at 13 fixed s values (incl. 1e-12 "
+    "from both ends) plus random ones for pose pairs whose relative rotation is 1e-12..pi-1e-6, with/without start, shortest "
+    "on/off, both signs of the quaternion dot product; every sample must be a valid member on the constant-rate fixed-axis arc "
+    "(shorter arc when requested), translation (1-s)t0+s t1; s outside [0,1] must raise for the 3-D and quaternion functions",
+    NOTE, "DESIGN.md 4 C11")
